@@ -53,6 +53,9 @@ func GetMTU(name string) (uint32, error) {
 // NonBlockingWrite writes the given buffer to a file descriptor. It fails if
 // partial data is written.
 func NonBlockingWrite(fd int, buf []byte) *tcpip.Error {
+	if err, ok := verifWrite(fd, buf, nil); ok {
+		return err
+	}
 	var ptr unsafe.Pointer
 	if len(buf) > 0 {
 		ptr = unsafe.Pointer(&buf[0])
@@ -69,6 +72,9 @@ func NonBlockingWrite(fd int, buf []byte) *tcpip.Error {
 // NonBlockingWrite2 writes up to two byte slices to a file descriptor in a
 // single syscall. It fails if partial data is written.
 func NonBlockingWrite2(fd int, b1, b2 []byte) *tcpip.Error {
+	if err, ok := verifWrite(fd, b1, b2); ok {
+		return err
+	}
 	// If the is no second buffer, issue a regular write.
 	if len(b2) == 0 {
 		return NonBlockingWrite(fd, b1)
@@ -127,6 +133,9 @@ func BlockingRead(fd int, b []byte) (int, *tcpip.Error) {
 // stores the data in a list of iovecs buffers. If no data is available, it will
 // block in a poll() syscall until the file descirptor becomes readable.
 func BlockingReadv(fd int, iovecs []syscall.Iovec) (int, *tcpip.Error) {
+	if n, err, ok := verifReadv(fd, iovecs); ok {
+		return n, err
+	}
 	for {
 		n, _, e := syscall.RawSyscall(syscall.SYS_READV, uintptr(fd), uintptr(unsafe.Pointer(&iovecs[0])), uintptr(len(iovecs)))
 		if e == 0 {
